@@ -208,6 +208,11 @@ func (m *BaseUndoLogManager) FlushUndoLog(tranCtx *types.TransactionContext, con
 		if i < len(afterImages) {
 			afterImage = afterImages[i]
 		}
+		// a statement that touched no row has nothing to undo: its empty record would only
+		// make the undo executors fail when the branch is rolled back
+		if (beforeImage == nil || len(beforeImage.Rows) == 0) && (afterImage == nil || len(afterImage.Rows) == 0) {
+			continue
+		}
 
 		undoLog := undo.SQLUndoLog{
 			SQLType:     sqlType,
